@@ -455,3 +455,56 @@ func init() {
 		Outside:     "rank 5 (rank 4 only with sizes <= 2), sizes above 3",
 	})
 }
+
+func init() {
+	modes := func(n int) []Item {
+		var out []Item
+		for m := 0; m < n; m++ {
+			out = append(out, Item{P: map[string]int64{"mode": int64(m)}})
+		}
+		return out
+	}
+	allChecks = append(allChecks, &Check{
+		ID: "C19", Level: "model_checking",
+		Harnesses: []Harness{
+			{Name: "C19_step", Pkg: "component/metrics", Func: "H_C19_step", Reach: []string{"done"},
+				What:  "one Accumulate from an arbitrary pre-state {total:T, correct:C}: total' = T+n, correct' = C + #equal positions, Result = correct/total in [0,1]",
+				Items: tiered(func() []Item { return items(map[string]int64{"maxn": 3}) }, func() []Item { return items(map[string]int64{"maxn": 6}) })},
+			{Name: "C19_split", Pkg: "component/metrics", Func: "H_C19_split", Reach: []string{"done"},
+				What:  "the same batch in one call or split at every position into two calls gives the same counters",
+				Items: tiered(func() []Item { return items(map[string]int64{"maxn": 3}) }, func() []Item { return items(map[string]int64{"maxn": 5}) })},
+			{Name: "C19_invalid", Pkg: "component/metrics", Func: "H_C19_invalid", Reach: []string{"done"},
+				What:  "nil tensors, wrong rank (0 and 2), mismatched lengths: error, counters unchanged",
+				Items: func(string) []Item { return modes(6) }},
+		},
+		Assumptions: []string{"counters are mathematical integers with 0 <= correct <= total < 2^40 (no int64 overflow within 2^40 further positions)",
+			"label pairs are identical or differ by more than 1e-200", numericModel},
+		Outside: "batches longer than 6 in one call (covered by additivity: a long batch equals its split); int64 overflow of the counters",
+	})
+}
+
+func init() {
+	initItems := func(lo, hi int, d int64) []Item {
+		var out []Item
+		for _, n := range []string{"Full", "Uniform", "Normal"} {
+			out = append(out, sItems("init", []string{n}, mergeItems(rankItems(lo, hi, d, map[string]int64{"nilconf": 0}), rankItems(lo, hi, d, map[string]int64{"nilconf": 1})))...)
+		}
+		out = append(out, sItems("init", []string{"HeUniform", "HeNormal", "XavierUniform", "XavierNormal"}, rankItems(lo, hi, d, map[string]int64{"nilconf": 0}))...)
+		return out
+	}
+	allChecks = append(allChecks, &Check{
+		ID: "C18", Level: "model_checking",
+		Harnesses: []Harness{
+			{Name: "C18_init", Pkg: "zzh", Func: "H_C18_init", Reach: []string{"done"},
+				What:  "the seven initializers (and nil-config defaults): shape, tracked, one fresh draw per element requested with exactly the specified parameters (fan values 1..64 symbolic), second call draws afresh",
+				Items: tiered(func() []Item { return initItems(0, 2, 2) }, func() []Item { return initItems(0, 3, 3) })},
+			{Name: "C18_rand", Pkg: "zzh", Func: "H_C18_rand", Reach: []string{"done"},
+				What:  "tensor.RandU / RandN: shape, tracking, fresh draws with the given parameters",
+				Items: tiered(func() []Item { return sItems("init", []string{"RandU", "RandN"}, rankItems(0, 2, 2, nil)) }, func() []Item { return sItems("init", []string{"RandU", "RandN"}, rankItems(0, 3, 3, nil)) })},
+		},
+		Assumptions: []string{numericModel,
+			"gonum distuv.Uniform.Rand / Normal.Rand are contract stubs: a fresh real per call, Min <= v < Max for Uniform; that gonum realises these distributions (and hence that sample moments converge) is its contract, exercised natively only as a 6-sigma moment check on 40000 draws during replay/validation",
+			"math.Sqrt is an uninterpreted function: the parameter is compared as the term sqrt(6/fanIn) etc."},
+		Outside: "the distributional half of the property (decided by gonum's contract, not by the solver); shapes above rank 3 / size 3",
+	})
+}
